@@ -213,6 +213,30 @@ def flag_rules(ctx, crate):
                 ok = False
         ctx.ob("R14-3", b.path, "CMD `%s` returns %s only under in_loop" % (word, want), ok,
                key="R14-3|%s|cmd-%s" % (b.path, word), crate=crate.kind)
+    # nothing else raises a flag: every return with a constant `true` in the continue / break position is justified by
+    # the word itself (`line == "continue"` / `"break"`) or forwards a flag a nested construct reported
+    n_raised, unjust = 0, []
+    nested = [strip_sites(b.call_expr(bb)) for bb, t, c in b.calls()
+              if c in ("scripting::run_exp_if", "scripting::run_exp_for", "scripting::run_exp_while", "scripting::run_exp")]
+    for bi, f1, f2 in _ret_tuples(b):
+        if (f1, f2) == (False, False) or (f1 is not True and f2 is not True):
+            continue
+        n_raised += 1
+        facts = dom_facts(b, bi)
+        by_word = any((norm_guard(a, v) or (None,))[0] == "eq" and norm_guard(a, v)[2] in ("continue", "break")
+                      and norm_guard(a, v)[3] for a, v in facts)
+        forwarded = False
+        for a, v in facts:
+            ea = b.expand_vars(a)
+            if ea[0] == "field" and v is True and any(ea[2] == b.expand_vars(r) for r in nested):
+                forwarded = True
+        if not (by_word or forwarded):
+            unjust.append(bi)
+    ctx.ob("R14-3", b.path, "continue / break flags are raised only by the words themselves or forwarded from a nested "
+                            "construct (%d raising return(s))" % n_raised, n_raised >= 2 and not unjust,
+           key="R14-3|%s|flag-raised-otherwise" % b.path, where=b.loc((unjust or [0])[0]), crate=crate.kind,
+           detail=None if not unjust else "a return reports `break` / `continue` under some other condition (a status value, a "
+           "counter): the rest of the loop body and the remaining iterations are skipped although the script has no break there")
     # loop drivers
     f = crate.fn("scripting::run_exp_for")
     w = crate.fn("scripting::run_exp_while")
